@@ -353,3 +353,99 @@ pub proof fn lemma_created_from_pairs(tx: Transaction, height: BlockHeight, opts
         assert(s[j].0 == cid(tx, i));
     }
 }
+
+// ---- C03: the batch contract does not depend on the order of the batch
+pub proof fn lemma_created_perm(t1: Seq<Transaction>, t2: Seq<Transaction>, rel: Map<CoinID, CoinDataHeight>, id: CoinID)
+    requires forall|x: Transaction| t1.contains(x) ==> t2.contains(x)
+    ensures created_by(t1, t1.len() as int, rel, id) ==> created_by(t2, t2.len() as int, rel, id),
+            spent_by(t1, t1.len() as int, id) ==> spent_by(t2, t2.len() as int, id),
+            marker_of(t1, t1.len() as int, id) ==> marker_of(t2, t2.len() as int, id)
+{
+    if created_by(t1, t1.len() as int, rel, id) {
+        let (t, i) = choose|t: int, i: int| 0 <= t < t1.len() && 0 <= i < t1[t].outputs@.len() && id == #[trigger] cid(t1[t], i) && rel.contains_key(id);
+        assert(t1.contains(t1[t]));
+        let u = choose|u: int| 0 <= u < t2.len() && t2[u] == t1[t];
+        assert(id == cid(t2[u], i));
+    }
+    if spent_by(t1, t1.len() as int, id) {
+        let (t, k) = choose|t: int, k: int| 0 <= t < t1.len() && 0 <= k < t1[t].inputs@.len() && id == #[trigger] t1[t].inputs@[k];
+        assert(t1.contains(t1[t]));
+        let u = choose|u: int| 0 <= u < t2.len() && t2[u] == t1[t];
+        assert(id == t2[u].inputs@[k]);
+    }
+    if marker_of(t1, t1.len() as int, id) {
+        let t = choose|t: int| 0 <= t < t1.len() && (#[trigger] t1[t]).kind == TxKind::Faucet && !is_grandfathered(spec_txhash(t1[t])) && id == spec_marker(spec_txhash(t1[t]));
+        assert(t1.contains(t1[t]));
+        let u = choose|u: int| 0 <= u < t2.len() && t2[u] == t1[t];
+        assert(t2[u].kind == TxKind::Faucet);
+    }
+}
+//@LEMMA C03,C02 lemma_batch_perm the exact coin-set transition specified for a batch is the same for every ordering of the same transactions
+pub proof fn lemma_batch_perm(c0: IMap<CoinID, CoinDataHeight>, c: IMap<CoinID, CoinDataHeight>, t1: Seq<Transaction>, t2: Seq<Transaction>, rel: Map<CoinID, CoinDataHeight>)
+    requires forall|x: Transaction| t1.contains(x) <==> t2.contains(x), batch_coins(c0, c, t1, rel)
+    ensures batch_coins(c0, c, t2, rel)
+{
+    assert forall|id: CoinID| (created_by(t1, t1.len() as int, rel, id) <==> created_by(t2, t2.len() as int, rel, id))
+        && (spent_by(t1, t1.len() as int, id) <==> spent_by(t2, t2.len() as int, id)) && (marker_of(t1, t1.len() as int, id) <==> marker_of(t2, t2.len() as int, id)) by {
+        lemma_created_perm(t1, t2, rel, id); lemma_created_perm(t2, t1, rel, id);
+    }
+}
+//@LEMMA C03,C05 lemma_fees_perm fee-pool and tip totals of a batch do not depend on its order
+pub proof fn lemma_fees_perm(t1: Seq<Transaction>, t2: Seq<Transaction>, mult: u128)
+    requires t1.no_duplicates(), t2.no_duplicates(), forall|x: Transaction| t1.contains(x) <==> t2.contains(x)
+    ensures fsum(t1, min_fee_of(mult)) == fsum(t2, min_fee_of(mult)), fsum(t1, tip_of(mult)) == fsum(t2, tip_of(mult)), fsum(t1, fee_of()) == fsum(t2, fee_of())
+{
+    lemma_fsum_perm(t1, t2, min_fee_of(mult)); lemma_fsum_perm(t1, t2, tip_of(mult)); lemma_fsum_perm(t1, t2, fee_of());
+}
+
+// ---- C01: a balanced transaction creates nothing (per denomination, over the transaction's own inputs and outputs)
+pub open spec fn out_of(d: Denom) -> spec_fn(CoinData) -> int { |o: CoinData| if o.denom == d { o.value.0 as int } else { 0 } }
+pub open spec fn in_of(rel: Map<CoinID, CoinDataHeight>, d: Denom) -> spec_fn(CoinID) -> int { |id: CoinID| if rel.contains_key(id) && rel[id].coin_data.denom == d { rel[id].coin_data.value.0 as int } else { 0 } }
+/// A-STRUCTS (read from Transaction::total_outputs): an entry per denomination that occurs among the outputs, plus MEL; the
+/// entry is the sum of those outputs, plus the fee for MEL
+pub broadcast axiom fn axiom_total_outputs(tx: Transaction, d: Denom)
+    requires outputs_fit(tx)
+    ensures #[trigger] spec_total_outputs(tx).contains_key(d) <==> (d == Denom::Mel || exists|i: int| 0 <= i < tx.outputs@.len() && (#[trigger] tx.outputs@[i]).denom == d),
+            spec_total_outputs(tx).contains_key(d) ==> spec_total_outputs(tx)[d].0 as int == fsum(tx.outputs@, out_of(d)) + (if d == Denom::Mel { tx.fee.0 as int } else { 0 });
+pub proof fn lemma_in_sums(inputs: Seq<CoinID>, rel: Map<CoinID, CoinDataHeight>, n: int, d: Denom)
+    requires 0 <= n <= inputs.len(), forall|q: int| 0 <= q < n ==> rel.contains_key(#[trigger] inputs[q]), fsum(inputs.take(n), in_value(rel)) <= u128::MAX
+    ensures (if in_sums(inputs, rel, n).contains_key(d) { in_sums(inputs, rel, n)[d] as int } else { 0 }) == fsum(inputs.take(n), in_of(rel, d)),
+            !in_sums(inputs, rel, n).contains_key(d) ==> fsum(inputs.take(n), in_of(rel, d)) == 0
+    decreases n
+{
+    if n == 0 { assert(inputs.take(0) =~= Seq::<CoinID>::empty()); } else {
+        lemma_fsum_take_next(inputs, in_value(rel), n - 1); lemma_fsum_take_next(inputs, in_of(rel, d), n - 1);
+        lemma_fsum_nonneg(inputs.take(n - 1), in_value(rel));
+        lemma_in_sums(inputs, rel, n - 1, d);
+        let cd = rel[inputs[n - 1]].coin_data;
+        lemma_in_sums(inputs, rel, n - 1, cd.denom);
+        lemma_in_sums_bound(inputs, rel, n - 1, cd.denom);
+        lemma_fsum_le(inputs.take(n - 1), in_of(rel, d), in_value(rel));
+        lemma_fsum_nonneg(inputs.take(n - 1), in_of(rel, d));
+    }
+}
+//@LEMMA C01 lemma_tx_conserves for an accepted non-faucet transaction and every denomination it outputs (other than its own new token and the ERG of a DoscMint): outputs (+ fee for MEL) equal inputs
+pub proof fn lemma_tx_conserves(tx: Transaction, rel: Map<CoinID, CoinDataHeight>, d: Denom)
+    requires tx.kind != TxKind::Faucet, outputs_fit(tx), fsum(tx.inputs@, in_value(rel)) <= u128::MAX,
+             forall|q: int| 0 <= q < tx.inputs@.len() ==> rel.contains_key(#[trigger] tx.inputs@[q]),
+             balanced(tx.kind, in_sums(tx.inputs@, rel, tx.inputs@.len() as int), spec_total_outputs(tx)),
+             d != Denom::NewCustom, !(tx.kind == TxKind::DoscMint && d == Denom::Erg)
+    ensures fsum(tx.outputs@, out_of(d)) + (if d == Denom::Mel { tx.fee.0 as int } else { 0 }) <= fsum(tx.inputs@, in_of(rel, d)),
+            spec_total_outputs(tx).contains_key(d) ==> fsum(tx.outputs@, out_of(d)) + (if d == Denom::Mel { tx.fee.0 as int } else { 0 }) == fsum(tx.inputs@, in_of(rel, d))
+{
+    broadcast use axiom_total_outputs;
+    let n = tx.inputs@.len() as int;
+    assert(tx.inputs@.take(n) =~= tx.inputs@);
+    lemma_in_sums(tx.inputs@, rel, n, d);
+    lemma_fsum_nonneg(tx.inputs@, in_of(rel, d));
+    if !spec_total_outputs(tx).contains_key(d) {
+        // no output of this denomination (and d != MEL): the output sum is 0
+        assert(d != Denom::Mel);
+        lemma_fsum_zero_if(tx.outputs@, out_of(d));
+    }
+}
+pub proof fn lemma_fsum_zero_if<T>(s: Seq<T>, f: spec_fn(T) -> int)
+    requires forall|i: int| 0 <= i < s.len() ==> f(#[trigger] s[i]) == 0
+    ensures fsum(s, f) == 0
+    decreases s.len()
+{ if s.len() > 0 { lemma_fsum_zero_if(s.drop_last(), f); assert(f(s[s.len() - 1]) == 0); } }
